@@ -9,6 +9,7 @@ pub mod c01;
 pub mod c04;
 pub mod c06;
 pub mod c12;
+pub mod c15;
 pub mod c16;
 pub mod c17;
 pub mod c18;
@@ -89,6 +90,7 @@ pub fn run_check(id: &str, tier: &str) -> i32 {
         "C06" => c06::run(tier),
         "C12" => c12::run_c12(tier),
         "C13" => c12::run_c13(tier),
+        "C15" => c15::run(tier),
         "C16" => c16::run(tier),
         "C17" => c17::run(tier),
         "C18" => c18::run(tier),
@@ -116,6 +118,7 @@ pub fn run_replay(path: &str) -> i32 {
         "C06" => c06::replay(&f),
         "C12" => c12::replay_c12(&f),
         "C13" => c12::replay_c13(&f),
+        "C15" => c15::replay(&f),
         "C16" => c16::replay(&f),
         "C17" => c17::replay(&f),
         "C18" => c18::replay(&f),
